@@ -244,41 +244,36 @@ Example rounding_example : rnd 0 (2 ^ 53 + 1) = SFin (2 ^ 53) /\ rnd 0 (2 ^ 53 +
                            rnd 0 (2 ^ 1024 - 2 ^ 970) = SPInf /\ rnd 0 (2 ^ 1024 - 2 ^ 970 - 1) = SFin (2 ^ 1024 - 2 ^ 971).
 Proof. repeat split; vm_compute; reflexivity. Qed.
 
-(* ------------------------------------------------------------------ int64 -> double *)
-Theorem long_key_exact : forall s v, 0 <= s -> Z.abs v <= 2 ^ 53 -> long_key s v = Z.shiftl v s.
+(* ------------------------------------------------------------------ int64 value against double boundary *)
+(* the comparison of the int64 overload (floor of the boundary, two range guards) is the exact comparison of the
+   boundary with the value, for every int64 - also beyond 2^53 (F8b, repaired by 48bf9cc) *)
+Theorem long_lt_exact : forall s b v, 0 <= s -> - 2 ^ 63 <= v < 2 ^ 63 ->
+  long_lt s b v = (b <? Z.shiftl v s).
 Proof.
-  intros s v Hs Hv. unfold long_key.
+  intros s b v Hs Hv. unfold long_lt.
+  rewrite !Z.shiftl_mul_pow2, Z.shiftr_div_pow2 by exact Hs.
   assert (Hp : 0 < 2 ^ s) by (apply pow2_pos; exact Hs).
-  assert (Hr : repr s (Z.shiftl v s)).
-  { rewrite Z.shiftl_mul_pow2 by exact Hs.
-    destruct (Z.eq_dec (Z.abs v) (2 ^ 53)) as [He|Hne].
-    - apply (repr_div s (s + 1)); try lia.
-      + rewrite Z.pow_add_r by lia.
-        destruct (Z.abs_spec v) as [[_ Ha]|[_ Ha]].
-        * exists (2 ^ 52). rewrite <- Ha, He. change (2 ^ 53) with (2 ^ 52 * 2 ^ 1). ring.
-        * exists (- 2 ^ 52). replace v with (- Z.abs v) by lia. rewrite He. change (2 ^ 53) with (2 ^ 52 * 2 ^ 1). ring.
-      + rewrite Z.abs_mul, He, (Z.abs_eq (2 ^ s)) by lia.
-        rewrite <- Z.pow_add_r by lia. apply Z.pow_lt_mono_r; lia.
-    - apply (repr_div s s); try lia.
-      + exists v. reflexivity.
-      + rewrite Z.abs_mul, (Z.abs_eq (2 ^ s)) by lia.
-        replace (s + 53) with (53 + s) by lia. rewrite Z.pow_add_r by lia.
-        apply Z.mul_lt_mono_pos_r; lia. }
-  unfold repr in Hr. rewrite Hr. reflexivity.
+  set (P := 2 ^ s) in *. clearbody P.
+  change (2 ^ 63) with 9223372036854775808 in *.
+  destruct (9223372036854775808 * P <=? b) eqn:E1.
+  - apply Z.leb_le in E1. symmetry. apply Z.ltb_ge. nia.
+  - apply Z.leb_gt in E1.
+    destruct (b <? - (9223372036854775808 * P)) eqn:E2.
+    + apply Z.ltb_lt in E2. symmetry. apply Z.ltb_lt. nia.
+    + apply Z.ltb_ge in E2.
+      pose proof (Z.div_mod b P ltac:(lia)) as Hdm.
+      pose proof (Z.mod_pos_bound b P Hp) as Hr.
+      set (q := b / P) in *. set (r := b mod P) in *. clearbody q r.
+      destruct (Z.ltb_spec q v); destruct (Z.ltb_spec b (v * P)); try reflexivity; nia.
 Qed.
 
-(* F8b: beyond 2^53 the comparison key is not the value *)
-Theorem bucket_spec_long_refuted_lemma :
-  exists s bs v, sorted bs /\ 0 <= s /\
-    ~ In_bucket bs (bucket bs (o_key (long_ops s) v)) (true_key KLong s v).
-Proof.
-  exists 0, [2 ^ 53], (2 ^ 53 + 1). split; [|split; [lia|]].
-  - intros i j Hij. cbn [length] in Hij. assert (i = 0%nat) by lia. assert (j = 0%nat) by lia. subst. lia.
-  - assert (E : bucket [2 ^ 53] (o_key (long_ops 0) (2 ^ 53 + 1)) = 0%nat) by (vm_compute; reflexivity).
-    rewrite E. intros [_ H]. cbn [length nth true_key] in H.
-    assert (Hc : Z.shiftl (2 ^ 53 + 1) 0 <= 2 ^ 53) by (apply H; lia).
-    vm_compute in Hc. apply Hc. reflexivity.
-Qed.
+(* non-vacuity, with the former counterexample: 2^53 + 1 is above the boundary 2^53, INT64_MIN + 1 above -2^63 *)
+Example long_lt_examples :
+  long_lt 0 (2 ^ 53) (2 ^ 53 + 1) = true /\ long_lt 0 (2 ^ 53) (2 ^ 53) = false /\
+  long_lt 0 (- 2 ^ 63) (- 2 ^ 63 + 1) = true /\ long_lt 0 (2 ^ 63) (2 ^ 63 - 1) = false /\
+  long_lt 1 1 1 = true /\ long_lt 1 (-1) 0 = true /\ long_lt 1 (-1) (-1) = false /\
+  bucket [2 ^ 53] (Z.shiftl (2 ^ 53 + 1) 0) = 1%nat.
+Proof. repeat split; vm_compute; reflexivity. Qed.
 
 (* ------------------------------------------------------------------ finite doubles lie between the sentinels *)
 Lemma land_2047 : forall x, 0 <= Z.land x 2047 < 2048.
